@@ -1044,7 +1044,10 @@ class PolarsModel(data_algebra.data_model.DataModel):
             coalesce_columns = set(op.sources[0].columns_produced()).intersection(
                 op.sources[1].columns_produced()
             ) - set([ka for ka, kb in zip(op.on_a, op.on_b) if ka == kb])
-            orphan_keys = [c for c in op.on_b if c not in set(op.on_a)]
+            # right keys named differently from their partner: Polars drops them, so a copy is carried through the join
+            orphan_keys = list(
+                dict.fromkeys([kb for ka, kb in zip(op.on_a, op.on_b) if ka != kb])
+            )
             input_right = inputs[1]
             if len(orphan_keys) > 0:
                 input_right = input_right.with_columns(
@@ -1087,14 +1090,28 @@ class PolarsModel(data_algebra.data_model.DataModel):
                         for c in coalesce_columns
                     ]
                 )
-            if len(orphan_keys) > 0:
-                res = res.rename({f"{c}_da_join_tmp_key": c for c in orphan_keys})
+            for c in orphan_keys:
+                if c not in joined_columns:
+                    res = res.rename({f"{c}_da_join_tmp_key": c})
+                elif c in set(op.sources[0].columns_produced()):
+                    # the name is also a column of the left table: left value first, then the right key
+                    res = res.with_columns(
+                        pl.when(pl.col(c).is_null())
+                        .then(pl.col(f"{c}_da_join_tmp_key"))
+                        .otherwise(pl.col(c))
+                        .alias(c)
+                    )
+                else:
+                    # a full join kept the right key under its own name: the copy is that column
+                    res = res.with_columns(pl.col(f"{c}_da_join_tmp_key").alias(c))
         else:
             # simulate right join with left join
             coalesce_columns = set(op.sources[0].columns_produced()).intersection(
                 op.sources[1].columns_produced()
             ) - set([ka for ka, kb in zip(op.on_a, op.on_b) if ka == kb])
-            orphan_keys = [c for c in op.on_a if c not in set(op.on_b)]
+            orphan_keys = list(
+                dict.fromkeys([ka for ka, kb in zip(op.on_a, op.on_b) if ka != kb])
+            )
             input_right = inputs[0]
             if len(orphan_keys) > 0:
                 input_right = input_right.with_columns(
@@ -1125,8 +1142,17 @@ class PolarsModel(data_algebra.data_model.DataModel):
                         for c in coalesce_columns
                     ]
                 )
-            if len(orphan_keys) > 0:
-                res = res.rename({f"{c}_da_join_tmp_key": c for c in orphan_keys})
+            for c in orphan_keys:
+                if c not in joined_columns:
+                    res = res.rename({f"{c}_da_join_tmp_key": c})
+                else:
+                    # the name is also a column of the right table: the left table's key first
+                    res = res.with_columns(
+                        pl.when(pl.col(f"{c}_da_join_tmp_key").is_null())
+                        .then(pl.col(c))
+                        .otherwise(pl.col(f"{c}_da_join_tmp_key"))
+                        .alias(c)
+                    )
         res = res.select(op.columns_produced())
         return res
 
